@@ -5,6 +5,7 @@ This module provides the 'plan' command-line interface for generating
 reports from TaskJuggler (.tjp) project files.
 """
 
+import contextlib
 import hashlib
 import json
 import logging
@@ -268,204 +269,214 @@ def report(ctx: click.Context, tjp_file: Optional[str], output_csv: bool, output
     temp_output_dir: Optional[Path] = None
 
     try:
-        # Check if reading from stdin
-        if not tjp_file or tjp_file == "-":
-            # Read from stdin
-            if verbose:
-                logger.debug("Reading .tjp content from stdin")
-
-            stdin_content = sys.stdin.read()
-
-            if not stdin_content.strip():
-                raise FileNotFoundError("No input provided on stdin")
-
-            # Create temporary file from stdin content (safe for concurrent execution)
-            temp_fd, temp_path = tempfile.mkstemp(suffix=".tjp", prefix="plan_stdin_")
-            stdin_temp_file = Path(temp_path)
-
-            # Write content and close file descriptor
-            with os.fdopen(temp_fd, "w") as f:
-                f.write(stdin_content)
-
-            tjp_path = stdin_temp_file
-
-            if verbose:
-                logger.debug("Created temporary file from stdin: %s", stdin_temp_file)
-
-        else:
-            # Validate input file
-            if verbose:
-                logger.debug("Validating input file: %s", tjp_file)
-
-            tjp_path = validate_tjp_file(tjp_file)
-
-        if not quiet:
-            click.echo(f"Processing: {tjp_path.name}", err=True)
-
-        # Calculate SHA256 hash of the input file for report_id
-        with open(tjp_path, "rb") as f:  # type: ignore[assignment]
-            file_hash = hashlib.sha256(f.read()).hexdigest()  # type: ignore[arg-type]
-
-        if verbose:
-            logger.debug("Input file SHA256: %s", file_hash)
-
-        # Determine output format
-        output_format = "csv" if output_csv else "json"
-
-        # Create temp directory for report output
-        temp_output_dir = Path(tempfile.mkdtemp(prefix="plan_output_"))
-
-        if verbose:
-            logger.debug("Created temp output directory: %s", temp_output_dir)
-
-        # Create auto-report file (always, to ensure output in requested format)
-        if verbose:
-            logger.debug("Creating auto-report for %s format", output_format)
-
-        temp_file, auto_report_id = create_auto_report_file(tjp_path, output_format)
-
-        if verbose:
-            logger.debug("Temporary file: %s", temp_file)
-            logger.debug("Auto-report ID: %s", auto_report_id)
-
-        # Run scriptplan to generate reports in temp directory
-        if verbose:
-            logger.debug("Running ScriptPlan report generator")
-
-        success, error_msg = run_scriptplan(str(temp_file), str(temp_output_dir))
-
-        if not success:
-            raise ReportGenerationError(error_msg or "Report generation failed")
-
-        # Find ALL generated files in temp directory
-        if output_format == "json":
-            output_files = list(temp_output_dir.glob("*.json"))
-        else:
-            output_files = list(temp_output_dir.glob("*.csv"))
-
-        if verbose:
-            logger.debug("Found %d output files: %s", len(output_files), [f.name for f in output_files])
-
-        if not output_files:
-            raise ReportGenerationError(
-                "Report generation completed but no output files found. "
-                "This may indicate a scheduling issue with your project."
-            )
-
-        # The report to emit is the auto-generated one - not whichever file of the
-        # project's own reports the directory listing happens to return first.
-        primary_output = temp_output_dir / f"{auto_report_id}.{output_format}"
-        if not primary_output.exists():
-            raise ReportGenerationError("Report generation completed but the report file is missing.")
-
-        if verbose:
-            logger.debug("Reading report from: %s", primary_output)
-
-        # Read the file content
-        with open(primary_output) as f:
-            report_content = f.read()
-
-        # Replace report_id with SHA256 hash for JSON output
-        if output_format == "json":
-            try:
-                report_data = json.loads(report_content)
-                # Replace report_id with file hash
-                report_data["report_id"] = file_hash
-                report_content = json.dumps(report_data, indent=2)
+        try:
+            # Check if reading from stdin
+            if not tjp_file or tjp_file == "-":
+                # Read from stdin
                 if verbose:
-                    logger.debug("Replaced report_id with SHA256 hash: %s", file_hash)
-            except json.JSONDecodeError:
-                # If JSON parsing fails, keep original content
-                logger.warning("Failed to parse JSON for report_id replacement")
+                    logger.debug("Reading .tjp content from stdin")
 
-        # Handle output
-        if output:
-            # User specified output path
-            output_path = Path(output)
+                stdin_content = sys.stdin.read()
 
-            if output_path.exists() and not force:
-                raise ReportGenerationError(f"Output file already exists: {output_path}\nUse --force to overwrite.")
+                if not stdin_content.strip():
+                    raise FileNotFoundError("No input provided on stdin")
 
-            # Write to specified file
-            with open(output_path, "w") as f:
-                f.write(report_content)
+                # Create temporary file from stdin content (safe for concurrent execution)
+                temp_fd, temp_path = tempfile.mkstemp(suffix=".tjp", prefix="plan_stdin_")
+                stdin_temp_file = Path(temp_path)
+
+                # Write content and close file descriptor
+                with os.fdopen(temp_fd, "w") as f:
+                    f.write(stdin_content)
+
+                tjp_path = stdin_temp_file
+
+                if verbose:
+                    logger.debug("Created temporary file from stdin: %s", stdin_temp_file)
+
+            else:
+                # Validate input file
+                if verbose:
+                    logger.debug("Validating input file: %s", tjp_file)
+
+                tjp_path = validate_tjp_file(tjp_file)
 
             if not quiet:
-                click.echo(f"Generated: {output_path}", err=True)
+                click.echo(f"Processing: {tjp_path.name}", err=True)
+
+            # Calculate SHA256 hash of the input file for report_id
+            with open(tjp_path, "rb") as f:  # type: ignore[assignment]
+                file_hash = hashlib.sha256(f.read()).hexdigest()  # type: ignore[arg-type]
 
             if verbose:
-                logger.debug("Wrote report to: %s", output_path)
-        else:
-            # Output to stdout (Unix way)
-            click.echo(report_content)
+                logger.debug("Input file SHA256: %s", file_hash)
 
-        # Clean up temp output directory (contains all generated files)
-        if temp_output_dir and temp_output_dir.exists():
-            shutil.rmtree(temp_output_dir)
+            # Determine output format
+            output_format = "csv" if output_csv else "json"
+
+            # Create temp directory for report output
+            temp_output_dir = Path(tempfile.mkdtemp(prefix="plan_output_"))
+
             if verbose:
-                logger.debug("Cleaned up temp output directory: %s", temp_output_dir)
+                logger.debug("Created temp output directory: %s", temp_output_dir)
 
-        # Success message to stderr
-        if not quiet:
-            click.secho("✓ Report generation completed successfully", fg="green", err=True)
-
-        # Cleanup temp files
-        if temp_file and temp_file.exists():
-            temp_file.unlink()
+            # Create auto-report file (always, to ensure output in requested format)
             if verbose:
-                logger.debug("Cleaned up temporary file: %s", temp_file)
+                logger.debug("Creating auto-report for %s format", output_format)
 
-        if stdin_temp_file and stdin_temp_file.exists():
-            stdin_temp_file.unlink()
+            temp_file, auto_report_id = create_auto_report_file(tjp_path, output_format)
+
             if verbose:
-                logger.debug("Cleaned up stdin temporary file: %s", stdin_temp_file)
+                logger.debug("Temporary file: %s", temp_file)
+                logger.debug("Auto-report ID: %s", auto_report_id)
 
-        sys.exit(0)
+            # Run scriptplan to generate reports in temp directory
+            if verbose:
+                logger.debug("Running ScriptPlan report generator")
 
-    except FileNotFoundError as e:
-        click.secho(f"Error: {e}", fg="red", err=True)
-        if verbose:
-            logger.exception("File validation failed")
+            success, error_msg = run_scriptplan(str(temp_file), str(temp_output_dir))
 
-        # Cleanup temp files and directories
-        if temp_file and temp_file.exists():
-            temp_file.unlink()
-        if stdin_temp_file and stdin_temp_file.exists():
-            stdin_temp_file.unlink()
-        if temp_output_dir and temp_output_dir.exists():
-            shutil.rmtree(temp_output_dir)
+            if not success:
+                raise ReportGenerationError(error_msg or "Report generation failed")
 
-        sys.exit(1)
+            # Find ALL generated files in temp directory
+            if output_format == "json":
+                output_files = list(temp_output_dir.glob("*.json"))
+            else:
+                output_files = list(temp_output_dir.glob("*.csv"))
 
-    except ReportGenerationError as e:
-        click.secho(f"Error: {e}", fg="red", err=True)
-        if verbose:
-            logger.exception("Report generation failed")
+            if verbose:
+                logger.debug("Found %d output files: %s", len(output_files), [f.name for f in output_files])
 
-        # Cleanup temp files and directories
-        if temp_file and temp_file.exists():
-            temp_file.unlink()
-        if stdin_temp_file and stdin_temp_file.exists():
-            stdin_temp_file.unlink()
-        if temp_output_dir and temp_output_dir.exists():
-            shutil.rmtree(temp_output_dir)
+            if not output_files:
+                raise ReportGenerationError(
+                    "Report generation completed but no output files found. "
+                    "This may indicate a scheduling issue with your project."
+                )
 
-        sys.exit(2)
+            # The report to emit is the auto-generated one - not whichever file of the
+            # project's own reports the directory listing happens to return first.
+            primary_output = temp_output_dir / f"{auto_report_id}.{output_format}"
+            if not primary_output.exists():
+                raise ReportGenerationError("Report generation completed but the report file is missing.")
 
-    except Exception as e:
-        click.secho(f"Unexpected error: {e}", fg="red", err=True)
-        if verbose:
-            logger.exception("Unexpected error occurred")
+            if verbose:
+                logger.debug("Reading report from: %s", primary_output)
 
-        # Cleanup temp files and directories
-        if temp_file and temp_file.exists():
-            temp_file.unlink()
-        if stdin_temp_file and stdin_temp_file.exists():
-            stdin_temp_file.unlink()
-        if temp_output_dir and temp_output_dir.exists():
-            shutil.rmtree(temp_output_dir)
+            # Read the file content
+            with open(primary_output) as f:
+                report_content = f.read()
 
-        sys.exit(2)
+            # Replace report_id with SHA256 hash for JSON output
+            if output_format == "json":
+                try:
+                    report_data = json.loads(report_content)
+                    # Replace report_id with file hash
+                    report_data["report_id"] = file_hash
+                    report_content = json.dumps(report_data, indent=2)
+                    if verbose:
+                        logger.debug("Replaced report_id with SHA256 hash: %s", file_hash)
+                except json.JSONDecodeError:
+                    # If JSON parsing fails, keep original content
+                    logger.warning("Failed to parse JSON for report_id replacement")
+
+            # Handle output
+            if output:
+                # User specified output path
+                output_path = Path(output)
+
+                if output_path.exists() and not force:
+                    raise ReportGenerationError(f"Output file already exists: {output_path}\nUse --force to overwrite.")
+
+                # Write to specified file
+                with open(output_path, "w") as f:
+                    f.write(report_content)
+
+                if not quiet:
+                    click.echo(f"Generated: {output_path}", err=True)
+
+                if verbose:
+                    logger.debug("Wrote report to: %s", output_path)
+            else:
+                # Output to stdout (Unix way)
+                click.echo(report_content)
+
+            # Clean up temp output directory (contains all generated files)
+            if temp_output_dir and temp_output_dir.exists():
+                shutil.rmtree(temp_output_dir)
+                if verbose:
+                    logger.debug("Cleaned up temp output directory: %s", temp_output_dir)
+
+            # Success message to stderr
+            if not quiet:
+                click.secho("✓ Report generation completed successfully", fg="green", err=True)
+
+            # Cleanup temp files
+            if temp_file and temp_file.exists():
+                temp_file.unlink()
+                if verbose:
+                    logger.debug("Cleaned up temporary file: %s", temp_file)
+
+            if stdin_temp_file and stdin_temp_file.exists():
+                stdin_temp_file.unlink()
+                if verbose:
+                    logger.debug("Cleaned up stdin temporary file: %s", stdin_temp_file)
+
+            sys.exit(0)
+
+        except FileNotFoundError as e:
+            click.secho(f"Error: {e}", fg="red", err=True)
+            if verbose:
+                logger.exception("File validation failed")
+
+            # Cleanup temp files and directories
+            if temp_file and temp_file.exists():
+                temp_file.unlink()
+            if stdin_temp_file and stdin_temp_file.exists():
+                stdin_temp_file.unlink()
+            if temp_output_dir and temp_output_dir.exists():
+                shutil.rmtree(temp_output_dir)
+
+            sys.exit(1)
+
+        except ReportGenerationError as e:
+            click.secho(f"Error: {e}", fg="red", err=True)
+            if verbose:
+                logger.exception("Report generation failed")
+
+            # Cleanup temp files and directories
+            if temp_file and temp_file.exists():
+                temp_file.unlink()
+            if stdin_temp_file and stdin_temp_file.exists():
+                stdin_temp_file.unlink()
+            if temp_output_dir and temp_output_dir.exists():
+                shutil.rmtree(temp_output_dir)
+
+            sys.exit(2)
+
+        except Exception as e:
+            click.secho(f"Unexpected error: {e}", fg="red", err=True)
+            if verbose:
+                logger.exception("Unexpected error occurred")
+
+            # Cleanup temp files and directories
+            if temp_file and temp_file.exists():
+                temp_file.unlink()
+            if stdin_temp_file and stdin_temp_file.exists():
+                stdin_temp_file.unlink()
+            if temp_output_dir and temp_output_dir.exists():
+                shutil.rmtree(temp_output_dir)
+
+            sys.exit(2)
+    finally:
+        # However the command ends - including SystemExit raised inside the library
+        # and KeyboardInterrupt - nothing is left behind in the temporary directory.
+        for leftover in (temp_file, stdin_temp_file):
+            if leftover is not None:
+                with contextlib.suppress(OSError):
+                    leftover.unlink()
+        if temp_output_dir is not None:
+            shutil.rmtree(temp_output_dir, ignore_errors=True)
 
 
 @cli.command()
